@@ -9,6 +9,35 @@ import (
 var suites = map[string]func(tier string) []*families.Case{
 	"beh": behSuite,
 	"f2":  f2Suite,
+	"hist": histSuite,
+}
+
+// histSuite: operation histories on one parser instance (C12).
+func histSuite(tier string) []*families.Case {
+	pick := func(cs []*families.Case, n int) []*families.Case {
+		if len(cs) <= n {
+			return cs
+		}
+		var out []*families.Case
+		for i := 0; i < n; i++ {
+			out = append(out, cs[i*len(cs)/n])
+		}
+		return out
+	}
+	us := []string{"uint16", "uint32", "uint64", "uint"}
+	var cs []*families.Case
+	if tier == "thorough" {
+		src := append(pick(families.F5(0, nil), 24), pick(families.F6(4, 0, nil), 16)...)
+		src = append(src, pick(families.F3(0, nil), 12)...)
+		cs = append(cs, families.Hist(src, 4, 7, []int{-1, 1, 1 << 15}, us, []string{"", "is"})...)
+		cs = append(cs, families.LongInputs([]string{"", "is"})...)
+	} else {
+		src := append(pick(families.F5(0, nil), 10), pick(families.F6(4, 0, nil), 6)...)
+		src = append(src, pick(families.F3(0, nil), 4)...)
+		cs = append(cs, families.Hist(src, 3, 6, []int{-1, 1, 1 << 15}, us, []string{"", "is"})...)
+		cs = append(cs, families.LongInputs([]string{""})[:2]...)
+	}
+	return cs
 }
 
 // f2Suite: development suite for the -switch optimiser (the F2 part of the thorough tier).
@@ -76,5 +105,6 @@ func init() {
 	reg("C07", []string{"beh"}, "every case (verdict and eager trace are compared on all of them)")
 	reg("C08", []string{"static", "beh"}, "the option sets yield at least two different outputs for the grammar (static suite) / the variant's code differs from the plain parser's (behaviour suite, which also compiles the file)")
 	reg("C11", []string{"beh"}, "rejected input with a non-empty furthest token")
+	reg("C12", []string{"hist"}, "a step executed in a configuration other than (uint32, Size unset), or inside a history")
 	reg("C13", []string{"beh"}, "input over the hostile byte alphabet (invalid UTF-8, NUL, non-BMP, U+10FFFF)")
 }
